@@ -10,8 +10,26 @@ mod unit;
 
 use hxlib::util::{Args, Rng, Sink};
 
+struct StderrLog;
+impl log::Log for StderrLog {
+    fn enabled(&self, m: &log::Metadata) -> bool {
+        m.target().starts_with("lance_encoding") || m.target().starts_with("lance_file")
+    }
+    fn log(&self, r: &log::Record) {
+        if self.enabled(r.metadata()) {
+            eprintln!("[{}] {}", r.target(), r.args());
+        }
+    }
+    fn flush(&self) {}
+}
+static LOGGER: StderrLog = StderrLog;
+
 fn main() {
     let (sub, args) = Args::parse();
+    if std::env::var("C25_TRACE").is_ok() {
+        let _ = log::set_logger(&LOGGER);
+        log::set_max_level(log::LevelFilter::Trace);
+    }
     let code = match sub.as_str() {
         "c25" => {
             let mut sink = Sink::new("C25", &args.out);
@@ -29,6 +47,7 @@ fn main() {
             sink.finish();
             0
         }
+        "reduce" => e2e::reduce(&args),
         "probe-dup" => probe::dup(&args),
         "probe-shapes" => probe::shapes(&args),
         "probe-fsl" => probe::fsl(&args),
